@@ -149,3 +149,21 @@ class curve_add:
         return 0 <= result[0] and result[0] < self._p and 0 <= result[1] and result[1] < self._p
 
     canaries = [("slope * slope - x0 - x1", "slope * slope - x0 - x0"), ("if (y0 + y1) % p == 0:", "if (y0 - y1) % p == 0:")]
+
+
+@contract("pycoin.ecdsa.Curve:Curve.contains_point")
+class contains_point:
+    """membership in the curve: the point at infinity, or y^2 = x^3 + a x + b (mod p)"""
+    props = ["C02"]
+    sig = dict(self=CURVE, x=Opt(Int()), y=Opt(Int()))
+    returns = Bool()
+
+    def requires(self, x, y):
+        return (x is None) == (y is None)
+
+    def ensures_equation(self, x, y, result):
+        if x is None:
+            return result == True
+        return result == ((y * y - (x * x * x + self._a * x + self._b)) % self._p == 0)
+
+    canaries = [("self._a * x", "self._a * y")]
